@@ -268,6 +268,11 @@ def run_group(group):
   params = jax.tree.map(jnp.asarray, tree())
   G = [tree() for _ in range(T)]
   G2 = [tree() for _ in range(T)]
+  if group.get("spike"):
+    # one huge but finite gradient (its square overflows float32) on a chosen step: on a non-statistics
+    # step the statistics must stay bit-identical whatever the gradient is
+    t_sp = group["spike"]["t"]
+    G[t_sp] = {k: (v * np.float32(group["spike"]["scale"])).astype(np.float32) for k, v in G[t_sp].items()}
   res = dict(runs={}, T=T)
   # schedule values, straight from the implementation
   lrspec = group.get("lr")
